@@ -1878,6 +1878,9 @@ def sweep_histories(tier: str, kind: str = "h5", seed: int = 0) -> List[list]:
                 ["del", "/g"], ["mkgrp", "/g"], ["commit"], ["mkds", "/g/w", 4], ["attach", "/g", "vt.bb", None, 1], ["reopen"],
                 ["copy", "/g", "/h", {}], ["detach", "/g", "vt.bb"], ["copy", "/h", "/", {"into": True, "name": "k"}],
                 ["copy", "/g", "/s", {"srcobj": True}], ["del", "/h"]])  # fmt: skip
+    # a group copied WITHOUT metadata while a node below it carries the only object of its schema (the copy must not touch the original's bookkeeping)
+    res.append([["mkgrp", "/g"], ["mkgrp", "/g/s"], ["mkds", "/g/s/e", 1], ["attach", "/g/s/e", "vt.l3", None, 0], ["attach", "/g/s", "vt.bb", None, 0],
+                ["copy", "/g", "/h", {"without_meta": True}], ["reopen"], ["copy", "/g/s", "/k", {"without_meta": True}], ["commit"], ["del", "/h"], ["reopen"]])  # fmt: skip
     if MULTIVER_OK:
         res.append([["mkds", "/d", 1], ["mkgrp", "/g"], ["mkds", "/g/e", 1],
                     ["attach", "/d", "vt.ver", [0, 1, 0], 0, {"env": [[0, 1, 0]]}],
@@ -2147,7 +2150,7 @@ def run_driver(checker_cls, tier: str, seed: int, rule: str, assumptions=(), tru
     if chk.hangs:
         rec.notes.append(f"{chk.hangs} operations hit the {OP_TIMEOUT_S}s watchdog")
     if getattr(chk, "skipped_tocinv", 0):
-        rec.notes.append(f"{chk.skipped_tocinv} steps not judged because the state violated TocInv (see C06)")
+        rec.notes.append(f"{chk.skipped_tocinv} steps ran on a state that violated TocInv (see C06); they were judged like all others")
     if getattr(chk, "followups", 0):
         rec.notes.append(f"{chk.followups} operations on states that violated TocInv already before the operation added further damage (consequences, not reported separately)")
     if TREE_DIFF["n"]:
